@@ -8,9 +8,7 @@ Open Scope Z_scope.
 Definition eval04 (c : caseR) : verdict :=
   (* model = implementation, and the decidable premise of the C04 theorem
      (root box encloses the binary32 coordinates) holds inside the contract *)
-  let corr := res_matches (model_of c) (r_impl c)
-              && (if in_contract c && negb (Nat.eqb (r_plen c) 0)
-                  then box_ok32 (r_D c) (pts_of c) (r_ws c) else true) in
+  let corr := res_matches (model_of c) (r_impl c) && premise_ok c in
   let prop :=
     if in_contract c then
       match r_impl c with
